@@ -222,7 +222,7 @@ pub fn soak(calls: &[Call], expected: &[String], repeats: usize) -> Option<(usiz
 
 /// A call with a very long text is a phase of its own: it is made once, not `repeats` times.
 fn is_flood(c: &Call) -> bool {
-    matches!(&c.op, Op::Rewrite { text, .. } | Op::T2d { text } if text.len() > 20_000)
+    matches!(&c.op, Op::Rewrite { text, .. } | Op::T2d { text } if text.len() > 10_000)
 }
 
 /// `n` distinct pronounceable pseudo-words (three consonant-vowel syllables, numbered from `from`):
@@ -264,7 +264,8 @@ pub fn soak_then_probe(
             // history of one call leaves behind must not change what the next, different call gives)
             let inter = probe.len().min(INTER);
             for (i, c) in calls.iter().enumerate() {
-                let reps = if is_flood(c) { repeats.min(1) } else { repeats };
+                // a flood is made twice: the second pass re-asks every word the first one made the library remember
+                let reps = if is_flood(c) { repeats.min(2) } else { repeats };
                 for r in 0..reps {
                     let got = exec_call(&ls, c, false);
                     if got != expected[i] {
@@ -736,10 +737,39 @@ pub fn run_c14(cfg: &BatchCfg, corpus_size: usize, pristine_sample: usize) -> i3
             }
         }
     }
+    // ... and one flood of several hundred distinct valid compounds per splitter language (hundreds x units x
+    // tens), so that a memo of decoded compounds overflows and is then asked again
+    for lang in [0usize, 4, 5] {
+        let pool = &crate::pools::POOLS[lang];
+        let mut text = String::new();
+        for h in pool.units.iter().skip(1).take(8) {
+            for u in pool.units.iter().take(9) {
+                for t in pool.tens.iter().take(8) {
+                    text.push_str(&match pool.code {
+                        "de" => format!("{h}hundert{u}und{t} "),
+                        "nl" => format!("{h}honderd{u}en{t} "),
+                        _ => format!("{h}cento{t}{u} "),
+                    });
+                }
+            }
+            text.push_str(". ");
+        }
+        let c = Call { lang, concrete: false, op: Op::Rewrite { text, thr: "0".into() }, crash_at: 0, reenter: 0, during_unwind: false };
+        if let Ok(exe) = std::env::current_exe() {
+            if let Ok((r, None)) = call_in_child(&exe, &serde_json::to_string(&c).unwrap_or_default(), "C", "UTC") {
+                soak_c.push(c.clone());
+                soak_e.push(r.clone());
+                soak_c.push(Call { concrete: true, ..c });
+                soak_e.push(r);
+            }
+        }
+    }
     let flood_calls = soak_c.iter().filter(|c| is_flood(c)).count();
     let soak_repeats = 66_000usize;
     let mut soak_hit: Option<(usize, usize, String)> = None;
     let mut soak_probe: Option<(Call, String)> = None;
+    // the probe calls that had been made (per phase) when the mismatch was seen: the fallback replay
+    let mut soak_probe_full: Option<(Vec<Call>, Vec<String>)> = None;
     let mut soak_phases: usize = usize::MAX;
     if silence_hit.is_none() && direct_mismatch.is_none() {
         // probe afterwards with the systematic families (first part of the corpus), crash-free calls only
@@ -769,6 +799,8 @@ pub fn run_c14(cfg: &BatchCfg, corpus_size: usize, pristine_sample: usize) -> i3
         if let Some((r, i, got, in_probe)) = soak_then_probe(&soak_c, &soak_e, soak_repeats, &probe_c, &probe_e) {
             if in_probe {
                 soak_probe = Some((probe_c[i].clone(), probe_e[i].clone()));
+                let upto = if r > 0 { probe_c.len().min(INTER) } else { i + 1 };
+                soak_probe_full = Some((probe_c[..upto].to_vec(), probe_e[..upto].to_vec()));
                 if r > 0 {
                     // found between phases: only the first r phases are needed to reproduce it
                     soak_phases = r;
@@ -853,7 +885,7 @@ pub fn run_c14(cfg: &BatchCfg, corpus_size: usize, pristine_sample: usize) -> i3
         let hi = soak_repeats;
         if let Some((pc, pe)) = &soak_probe {
             let detail = format!(
-                "after the soak ({} calls: short ones repeated {} times in a row each, floods of 12 000 distinct words once each, on one thread and one set of interpreters), call {} gives {:?}, alone in a pristine process it gives {:?}",
+                "after the soak ({} calls: short ones repeated {} times in a row each, floods of distinct words / compounds twice each, on one thread and one set of interpreters), call {} gives {:?}, alone in a pristine process it gives {:?}",
                 soak_c.len(),
                 hi,
                 serde_json::to_string(pc).unwrap_or_default(),
@@ -872,6 +904,19 @@ pub fn run_c14(cfg: &BatchCfg, corpus_size: usize, pristine_sample: usize) -> i3
                     fail(&lines, 1)
                 }
                 Err(e) => {
+                    // the state that matters may have been built by the other probe calls as well: replay
+                    // with every probe call that had been made between the phases
+                    if let Some((fc, fe)) = &soak_probe_full {
+                        let doc = json!({"property":"C14","oracle":"H1-history-independence","detail":detail,
+                            "soak": {"calls": &soak_c[..soak_phases.min(soak_c.len())], "expected": &soak_e[..soak_phases.min(soak_e.len())], "repeats": hi, "probe": fc, "probe_expected": fe},
+                            "case": single_call_case(pc, pe)});
+                        let _ = std::fs::write(&path, serde_json::to_string_pretty(&doc).unwrap());
+                        if confirm_in_child(&path, "H1-history-independence").is_ok() {
+                            lines.push(format!("violation detail: oracle=H1-history-independence {detail}"));
+                            lines.push(format!("VIOLATION property=C14 replay={}", path.display()));
+                            return fail(&lines, 1);
+                        }
+                    }
                     lines.push(format!("HARNESS-ERROR property=C14 post-soak probe mismatch did not reproduce in a fresh process: {e}"));
                     fail(&lines, 2)
                 }
@@ -908,7 +953,7 @@ pub fn run_c14(cfg: &BatchCfg, corpus_size: usize, pristine_sample: usize) -> i3
     let mut extra = json!({
         "layers": {
             "a_send_sync_probe": "built and passed before this binary ran (./check C14 runs it first)",
-            "b_history_simulation": "runs with 1 simulated thread + one forward pass over the whole corpus + soak (up to 44 short calls, each repeated 66000 times in a row on one thread, then 14 floods of 12000 distinct words, probe calls after every phase)",
+            "b_history_simulation": "runs with 1 simulated thread + one forward pass over the whole corpus + soak (up to 44 short calls, each repeated 66000 times in a row on one thread, then 20 floods of distinct words / compounds made twice each, probe calls after every phase; allocator seam: deterministic address reuse for the library's small allocations)",
             "c_schedule_simulation": "runs with 2-4 simulated threads under the deterministic scheduler",
             "d_miri": if cfg.tier == "thorough" { "run by ./check after this binary (see miri section)" } else { "thorough tier only" },
             "e_silence": "fd 1 and fd 2 captured for the silence scan, the forward pass and the whole batch",
@@ -918,7 +963,9 @@ pub fn run_c14(cfg: &BatchCfg, corpus_size: usize, pristine_sample: usize) -> i3
         "pristine_processes_under_clock_skew": if clockskew_so().is_some() { calls.len() } else { 0 },
         "clock_skew": if clockskew_so().is_some() { "LD_PRELOAD shim: every clock reading jumps 5 s ahead (tools/clockskew.c)" } else { "shim not built (no C compiler): skipped" },
         "soak_calls": soak_c.len(),
-        "soak_flood_calls_12000_distinct_words": flood_calls,
+        "soak_flood_calls": flood_calls,
+        "soak_flood_kinds": "14 x 12000 distinct pseudo-words, 6 x 576 distinct compounds; each flood is made twice",
+        "allocator_seam_addresses_reused": crate::alloc::reused_total(),
         "soak_repetitions_per_call": soak_repeats,
         "captured_bytes": captured.len(),
     });
